@@ -487,6 +487,9 @@ def depth_of(e):
 
 # ------------------------------------------------------------------------------------------------ run
 def run(ctx):
+    # regenerate Gen/Gen_Walkers.v (walker dispatch tables) from $UP_REPO before the theorems are re-checked
+    from harness.ext._dispatch_common import prepare as _prepare_dispatch
+    _prepare_dispatch(ctx)
     import unified_planning  # noqa: F401
     from unified_planning.model.walkers import Simplifier
 
